@@ -5,7 +5,7 @@
    Proof systems: honest proofs verify; any altered component or context, and every degenerate assembly, is refused.    *)
 EXTENDS Integers, Sequences, FiniteSets, TLC
 OprfSites == {"none", "eval-element", "eval-swap", "proof-c", "proof-s", "other-key", "other-info", "blinded-element", "eval-identity", "proof-zero"}
-ProofSites == {"none", "proof-c", "proof-s", "proof-v", "statement-a", "statement-b", "statement-c", "statement-d", "statement-length", "context", "userid",
+ProofSites == {"none", "proof-c", "proof-s", "proof-v", "statement-a", "statement-b", "statement-c", "statement-d", "statement-length", "statement-nonunit", "context", "userid",
                "zero-challenge", "zero-response", "identity-elements", "false-statement", "prover-parameter", "swapped-proof"}
 ExpectedOprf(mode, site) ==
   IF site = "none" THEN "ok"
